@@ -294,6 +294,8 @@ func RunLong(w *World, o LongOpts) error {
 	}
 	w.CheckConservation(w.Nodes[0])
 	w.CheckBalances(w.Nodes[0], addrs)
+	// every wallet tries to spend one unit more than it owns, and every second one exactly what it owns
+	w.OverspendProbes(w.Nodes[0], d)
 	return nil
 }
 
